@@ -105,6 +105,12 @@ class Session:
             ctx._dry_run_until_t4 = True
         elif hasattr(ctx, "_dry_run_until_t4"):
             delattr(ctx, "_dry_run_until_t4")
+        # T3 is skipped in a dry run, so a reflection request can only arrive the way the batch driver transports it:
+        # as a flag on the state
+        if inp.get("dry") and inp.get("plan_refl"):
+            self.state["_planner_reflection_flag"] = True
+        else:
+            self.state.pop("_planner_reflection_flag", None)
         faults = set(inp.get("faults") or [])
         fake = E.FakeTime(steps=(0.0,))
         boundaries: List[Tuple[str, int]] = []
